@@ -31,6 +31,7 @@ type BackendSpec struct {
 	Tag      string   `json:"tag"`
 	Services []string `json:"services"` // implemented and (by default) advertised
 	Verbose  bool     `json:"verbose_reflection,omitempty"` // reflection answers repeat files already sent on the stream
+	DepsFirst bool    `json:"deps_first,omitempty"`          // ... and list a file's dependencies before the file itself (the protocol states no order)
 }
 
 // svcProvider is the ServiceInfoProvider of a backend's reflection service:
@@ -427,7 +428,8 @@ func reflJ(fail string) string {
 // are within the protocol, and other servers do repeat files).
 type verboseReflection struct {
 	rpb.UnimplementedServerReflectionServer
-	provider *svcProvider
+	provider  *svcProvider
+	depsFirst bool
 }
 
 func fileWithDeps(fd protoreflect.FileDescriptor, seen map[string]bool, out *[][]byte) {
@@ -460,6 +462,11 @@ func (v *verboseReflection) ServerReflectionInfo(stream rpb.ServerReflection_Ser
 			}
 			var files [][]byte
 			fileWithDeps(fd, map[string]bool{}, &files)
+			if v.depsFirst {
+				for i, j := 0, len(files)-1; i < j; i, j = i+1, j-1 {
+					files[i], files[j] = files[j], files[i]
+				}
+			}
 			resp.MessageResponse = &rpb.ServerReflectionResponse_FileDescriptorResponse{FileDescriptorResponse: &rpb.FileDescriptorResponse{FileDescriptorProto: files}}
 		}
 		switch r := req.MessageRequest.(type) {
@@ -516,7 +523,7 @@ func newBackend(sim *core.Sim, spec *BackendSpec, reqs map[int]*reqState) (*back
 	}
 	var inner rpb.ServerReflectionServer = reflection.NewServer(reflection.ServerOptions{Services: b.provider, DescriptorResolver: schemaResolver{b.provider}})
 	if spec.Verbose {
-		inner = &verboseReflection{provider: b.provider}
+		inner = &verboseReflection{provider: b.provider, depsFirst: spec.DepsFirst}
 	}
 	b.refl = &faultyReflection{ServerReflectionServer: inner, failAfter: -1}
 	rpb.RegisterServerReflectionServer(b.srv, b.refl)
